@@ -160,6 +160,31 @@ Proof. exact FootprintProofs.pooled_tunnel_buffer_would_conflict. Qed.
 Theorem tunnel_buffer_is_private : forall r o a, In a (footprint current r o) -> a_cell a <> CTunnelBuf.
 Proof. exact FootprintProofs.tunnel_buffer_is_private. Qed.
 
+(* A RequiredFields object (the package-level XxxRequiredFields of every generated record) that builds a field index IN
+   PLACE, unsynchronised, when a record is first read with it: any two client calls conflict (each decodes a response
+   record), and so do any two requests that reach their resource method ... *)
+Theorem lazy_required_index_would_conflict : forall c1 c2 r1 r2 res1 res2,
+  exists a b, In a (call_fp lazyidx c1 r1 res1) /\ In b (call_fp lazyidx c2 r2 res2) /\ conflict a b.
+Proof. exact FootprintProofs.lazy_required_index_would_conflict. Qed.
+
+Theorem lazy_required_index_requests_would_conflict :
+  exists a b,
+    In a (serve_fp lazyidx 0 1 one_root [] (BOk None) get_a1) /\
+    In b (serve_fp lazyidx 0 2 one_root [] (BOk None) get_a1) /\ conflict a b.
+Proof. exact FootprintProofs.lazy_required_index_requests_would_conflict. Qed.
+
+(* ... on the current code every operation only reads RequiredFields objects (plain reads of objects that are complete since
+   package initialisation), and requests and calls do read them.  THAT THE REAL OBJECTS ARE COMPLETE WHEN FIRST SHARED is not
+   decided here: it is what the fresh-state bursts of harness/cmd/c17 (burst.go) test. *)
+Theorem required_fields_read_only : forall r o a,
+  In a (footprint current r o) -> a_cell a = CReqFields -> a_write a = false /\ a_sync a = Plain.
+Proof. exact FootprintProofs.required_fields_read_only. Qed.
+
+Theorem required_fields_are_read :
+  In (rd CReqFields) (serve_fp current 0 1 one_root [] (BOk None) get_a1) /\
+  forall c r res, In (rd CReqFields) (call_fp current c r res).
+Proof. exact FootprintProofs.required_fields_are_read. Qed.
+
 (* ---- the honest full statement ---------------------------------------------------------------------------------- *)
 
 (* [observed r o]: the accesses the REAL program performs when goroutine r runs operation o.  The property's full
@@ -203,4 +228,8 @@ Print Assumptions shared_tree_would_conflict.
 Print Assumptions root_state_would_conflict.
 Print Assumptions pooled_tunnel_buffer_would_conflict.
 Print Assumptions tunnel_buffer_is_private.
+Print Assumptions lazy_required_index_would_conflict.
+Print Assumptions lazy_required_index_requests_would_conflict.
+Print Assumptions required_fields_read_only.
+Print Assumptions required_fields_are_read.
 Print Assumptions race_free_given_adequacy.
